@@ -96,11 +96,25 @@ CONFIGS = {
     'legacy_prng': {'JAX_THREEFRY_PARTITIONABLE': '0'},      # legacy threefry bit layout
     'rbg': {'JAX_DEFAULT_PRNG_IMPL': 'rbg'},                 # another PRNG implementation behind PRNGKey()
     'nojit': {'JAX_DISABLE_JIT': '1'},                       # op-by-op execution
+    # 64-bit mode switched on by the program AFTER fedjax was imported (jax.config.update('jax_enable_x64', True) at the top of
+    # a training script): whatever the library computed from the default dtypes at import time is stale afterwards
+    'x64_late': {'VERIF_X64_LATE': '1'},
 }
 
 
 def config_env(sub):
   return CONFIGS[sub.split('@', 1)[1]] if '@' in sub else {}
+
+
+def _late_x64():
+  import importlib
+  import jax
+  if jax.config.jax_enable_x64:
+    return
+  for m in ('fedjax', 'fedjax.aggregators', 'fedjax.algorithms', 'fedjax.models', 'fedjax.datasets', 'fedjax.training',
+            'fedjax.aggregators.walsh_hadamard', 'fedjax.aggregators.compression'):
+    importlib.import_module(m)
+  jax.config.update('jax_enable_x64', True)
 
 
 def execute(module_name, sub, case):
@@ -111,6 +125,8 @@ def execute(module_name, sub, case):
     if os.environ.get(k) != v:
       return {'sub': sub, 'case': case, 'status': 'harness', 'info': None,
               'msg': 'configuration %s=%s is not in effect in this process' % (k, v)}
+  if os.environ.get('VERIF_X64_LATE') == '1' and sub.endswith('@x64_late'):
+    _late_x64()
   full_sub, sub = sub, sub.split('@', 1)[0]
   fn = mod.SUBS[sub]
   # per-sub-space limit chosen by the check (macro cases that explore a whole graph need more than the default);
